@@ -25,6 +25,7 @@
 #include <semaphore.h>
 #include <dlfcn.h>
 #include <memory>
+#include <new>
 
 using namespace asim;
 
@@ -165,7 +166,34 @@ static void on_access(uintptr_t a, unsigned size, bool write, void *pc)
     yield_point(write ? 1 : 0);
 }
 
+// Heap blocks: a block that is freed and handed out again (possibly to another thread) is a new object; the
+// allocator's own lock orders the two lives, so the shadow of the block is forgotten when it is freed.
+#include <malloc.h>
+static void shadow_forget(void *p)
+{
+    if (!g || !g->concurrent || !p || !g_shadow) return;
+    size_t n = malloc_usable_size(p);
+    ++t_in_det;
+    for (uintptr_t ga = (uintptr_t)p >> 3; ga <= ((uintptr_t)p + n) >> 3; ++ga) {
+        uint64_t h = ga * 0x9E3779B97F4A7C15ULL;
+        for (unsigned probe = 0; probe < 64; ++probe) {
+            ShadowEnt &e = g_shadow[((h >> (64 - SHADOW_BITS)) + probe) & (SHADOW_SIZE - 1)];
+            if (e.gen != g_shadow_gen) break;
+            if (e.key == ga) { for (int i = 0; i < MAXT; ++i) e.g.r[i] = e.g.w[i] = 0; break; }
+        }
+    }
+    --t_in_det;
+}
+void *operator new(size_t n) { void *p = malloc(n ? n : 1); if (!p) throw std::bad_alloc(); return p; }
+void *operator new[](size_t n) { return operator new(n); }
+void operator delete(void *p) noexcept { if (t_in_lib) shadow_forget(p); free(p); }
+void operator delete[](void *p) noexcept { operator delete(p); }
+void operator delete(void *p, size_t) noexcept { operator delete(p); }
+void operator delete[](void *p, size_t) noexcept { operator delete(p); }
+
 extern "C" {
+void __real_free(void *);
+void __wrap_free(void *p) { if (t_in_lib) shadow_forget(p); __real_free(p); }
 void __sanitizer_cov_load1(uint8_t *a) { on_access((uintptr_t)a, 1, false, __builtin_return_address(0)); }
 void __sanitizer_cov_load2(uint16_t *a) { on_access((uintptr_t)a, 2, false, __builtin_return_address(0)); }
 void __sanitizer_cov_load4(uint32_t *a) { on_access((uintptr_t)a, 4, false, __builtin_return_address(0)); }
@@ -270,7 +298,13 @@ static void cpp_pair(ThreadCtx &T, const uint8_t *k, size_t klen, const uint8_t 
 {
     E e = make_keyed<E>(k, klen);
     e.set_nonce(n, 16);
-    r = e.encrypt(T.out, m, mlen, a, adlen);
+    if (sd & (1u << 21)) {
+        // byte_array overloads: the library allocates; the allocator hooks above keep block reuse from faking a race
+        ascon::byte_array cv, mv(m, m + mlen), av(a, a + adlen);
+        e.encrypt(cv, mv, av);
+        r = (int)cv.size();
+        if (!cv.empty()) memcpy(T.out, cv.data(), cv.size());
+    } else r = e.encrypt(T.out, m, mlen, a, adlen);
     clen = r < 0 ? 0 : (size_t)r;
     if (tamper && clen) T.out[(sd >> 8) % clen] ^= (uint8_t)(1u << (sd & 7));
     E d;
